@@ -6,6 +6,7 @@ use hvcommon::{Value, json};
 mod colt;
 mod ght;
 mod ght2;
+mod var;
 mod vc;
 
 fn run(case: &Value) -> Value {
@@ -14,6 +15,7 @@ fn run(case: &Value) -> Value {
         Some("ght") => ght::run(case),
         Some("ght2") => ght2::run(case),
         Some("colt") => colt::run(case),
+        Some("var") => var::run(case),
         Some("shapes") => ght::shapes(),
         _ => json!({ "bad_case": "unknown k" }),
     }
